@@ -277,6 +277,14 @@ func transitionIssues(u *universe, before, after *snap, rollback bool) []issue {
 		out = append(out, issue{"high_monotone", "view_decreased", "t", fmt.Sprintf("HighQC went from %s (view %d) to %s (view %d) without a rollback",
 			before.marker[0], before.highView, after.marker[0], after.highView)})
 	}
+	// HighQC is only ever moved onto a node found under Root (updateHighQC / enforceUpdateHighQC look the
+	// target up from Root): a transition that leaves Root alone and moves HighQC onto an object that is
+	// not reachable from Root has acted on a detached node. (HighQC left behind by a commit that prunes
+	// its branch is the other, not judged, case: there HighQC does not move.)
+	if after.rootPtr == before.rootPtr && after.marker[0] != before.marker[0] && after.marker[0] != "-" && !after.mreach[0] {
+		out = append(out, issue{"high_reachable", "highqc_moved_off_tree", "t", fmt.Sprintf("HighQC moved from %s to %s, which is not reachable from Root %s (tree %s)",
+			before.marker[0], after.marker[0], after.rootID, after.treeStr)})
+	}
 	if after.rootPtr != before.rootPtr {
 		if !before.treePtrs[after.rootPtr] || !u.descends(after.rootID, before.rootID) {
 			out = append(out, issue{"root_descendant", "root_moved_to_non_descendant", "t", fmt.Sprintf("Root moved from %s to %s which is not one of its stored descendants (tree before %s)",
@@ -284,4 +292,29 @@ func transitionIssues(u *universe, before, after *snap, rollback bool) []issue {
 		}
 	}
 	return out
+}
+
+// acceptedNowIssues: a proposal whose insertion THIS transition acknowledged for the first time and whose
+// view is above the committed root's is stored right after it, wherever its parent is (a late child of a
+// pruned branch is kept as an orphan; orphans at or below the root's view may be dropped later, and a
+// repeated insertion of such a dropped orphan is acknowledged without storing it - neither is demanded).
+func acceptedNowIssues(u *universe, after *snap, p string) []issue {
+	if p == "" || u.by[p] == nil || u.view(p) <= u.view(after.rootID) || len(after.places[p]) > 0 {
+		return nil
+	}
+	return []issue{{"stored_once", "accepted_proposal_lost.on_acceptance", "stored_once|lost_now|" + p,
+		fmt.Sprintf("proposal %s (view %d, parent %s) was accepted by this call and is stored nowhere (root %s, tree %s, orphans %v)", p, u.view(p), u.parent(p), after.rootID, after.treeStr, after.orphStr)}}
+}
+
+// probeLookups performs the lookup DFSQueryNode(id) for every proposal id of the universe, as stray votes
+// or certificates for those ids make the Smr do (handleReceivedVoteMsg, UpdateJustifyQcStatus, the
+// duplicate test of updateQcStatus). The answers are not judged. On a tree whose lookup is a pure walk
+// from Root this changes nothing; it keeps state that a lookup may leave behind (memoisation) a function
+// of the trees the history went through rather than of which calls happened to look a node up, so that
+// histories merged on the canonical tree do not differ in it.
+func probeLookups(u *universe, t *bft.QCPendingTree) {
+	t.DFSQueryNode([]byte(genesis))
+	for _, n := range u.Nodes {
+		t.DFSQueryNode([]byte(n.Name))
+	}
 }
